@@ -9,7 +9,7 @@ set -x
 cd $wt || exit 2
 git checkout -- src include tools 2>/dev/null
 build() {
-  cmake -G Ninja -B _build -DCMAKE_BUILD_TYPE=Release > /dev/null && cmake --build _build -j16 2>&1 | tail -1 && cmake --build _build --target testprograms -j16 2>&1 | tail -1
+  cmake -G Ninja -B _build -DCMAKE_BUILD_TYPE=Release > /dev/null && cmake --build _build -j4 2>&1 | tail -1 && cmake --build _build --target testprograms -j4 2>&1 | tail -1
 }
 demo() {
   lib=$(ls _build/src/libGeographicLib.so* 2>/dev/null | head -1)
@@ -18,7 +18,7 @@ demo() {
 }
 git apply $md/patch.diff || { echo "RESULT patch-does-not-apply"; exit 1; }
 build || { echo "RESULT does-not-compile"; git checkout -- src include; exit 1; }
-t=$(ctest --test-dir _build -j16 --timeout 900 2>&1 | grep "tests passed")
+t=$(ctest --test-dir _build -j4 --timeout 900 2>&1 | grep "tests passed")
 echo "$t"
 demo; rc_mut=$?
 git checkout -- src include
